@@ -154,7 +154,7 @@ func TestC17_Search(t *testing.T) {
 		var labels []string
 		for s := 0; s < nSearch; s++ {
 			var argsQ []string
-			qkind := rapid.SampledFrom([]string{"vocab", "vocab", "vocab", "typo", "recovery", "padded", "split", "rejected-meta", "rejected-blank", "control", "long", "unicode", "repeat", "repeat-recased", "repeat-recased"}).Draw(t, "qkind")
+			qkind := rapid.SampledFrom([]string{"vocab", "vocab", "vocab", "typo", "recovery", "padded", "split", "rejected-meta", "rejected-blank", "control", "long", "unicode", "repeat", "repeat-recased", "repeat-recased", "question"}).Draw(t, "qkind")
 			w := rapid.SampledFrom(toks)
 			switch qkind {
 			case "vocab":
@@ -177,6 +177,8 @@ func TestC17_Search(t *testing.T) {
 				argsQ = []string{strings.Repeat(w.Draw(t, "w")+" ", rapid.IntRange(80, 400).Draw(t, "rep"))}
 			case "unicode":
 				argsQ = []string{gen.TextOf(gen.UWord(true), 1, 3).Draw(t, "uq") + " " + w.Draw(t, "w")}
+			case "question":
+				argsQ = []string{"how do I " + w.Draw(t, "w") + rapid.SampledFrom([]string{"?", " ?", "??", "!", " ? ?", "...", "?!"}).Draw(t, "end")}
 			case "repeat-recased": // the previous query in another letter case: a different query, a new entry
 				if len(prevHist) > 0 {
 					pq := prevHist[len(prevHist)-1].Query
@@ -204,7 +206,7 @@ func TestC17_Search(t *testing.T) {
 			limFlag := rapid.SampledFrom([]int{0, 0, 1, 3, 5, 100, -1, 101}).Draw(t, "limit")
 			format := rapid.SampledFrom([]string{"list", "list", "json", "json", "JSON", "table", "xml"}).Draw(t, "format")
 			verbose := rapid.Bool().Draw(t, "verbose")
-			colorMode := rapid.SampledFrom([]string{"flag", "env", "env-empty", "color"}).Draw(t, "color")
+			colorMode := rapid.SampledFrom([]string{"flag", "env", "env-empty", "color", "flag-true", "env+flag-false", "env+flag", "flag-false"}).Draw(t, "color")
 			var platforms []string
 			allP, noX := rapid.IntRange(0, 3).Draw(t, "allp") == 0, rapid.IntRange(0, 3).Draw(t, "nox") == 0
 			for _, p := range rapid.SliceOfN(rapid.SampledFrom([]string{"linux", "windows", "macos"}), 0, 2).Draw(t, "platforms") {
@@ -229,6 +231,16 @@ func TestC17_Search(t *testing.T) {
 				env = append(env, "NO_COLOR=1")
 			case "env-empty":
 				env = append(env, "NO_COLOR=")
+			case "flag-true":
+				args = append(args, "--no-color=true")
+			case "env+flag-false": // NO_COLOR is in the environment: no escape sequences, whatever the flag says
+				env = append(env, "NO_COLOR=1")
+				args = append(args, "--no-color=false")
+			case "env+flag":
+				env = append(env, "NO_COLOR=yes")
+				args = append(args, "--no-color")
+			case "flag-false":
+				args = append(args, "--no-color=false")
 			}
 			for _, p := range platforms {
 				args = append(args, "--platform", p)
@@ -319,7 +331,7 @@ func TestC17_Search(t *testing.T) {
 				}
 				anyResult = true
 			}
-			if colorMode != "color" && strings.ContainsRune(r.Stdout, 0x1b) {
+			if colorMode != "color" && colorMode != "flag-false" && strings.ContainsRune(r.Stdout, 0x1b) {
 				t.Fatalf("terminal escape sequence in the output although colour is disabled (%s); %s\n%+q", colorMode, ctx, clip(r.Stdout))
 			}
 			// history: exactly one corresponding newest entry
